@@ -2,7 +2,7 @@
 import { Reporter, TIER, valueKind, sha } from "./common.mjs";
 import { familyPrograms, forEachCompiledParser, bFamily } from "./cases.mjs";
 import { render, skeleton } from "./spec.mjs";
-import { build, toSrc, universeFor, CYCLIC, twoFaultValues } from "./universe.mjs";
+import { build, toSrc, universeFor, CYCLIC, twoFaultValues, sparseSet } from "./universe.mjs";
 import { Prog } from "./ref.mjs";
 
 const MISSING = Symbol("missing");
@@ -186,7 +186,9 @@ export async function run() {
       two = spec ? twoFaultValues(refProg, spec) : [];
     } catch {}
     stats.twoFaultValues = (stats.twoFaultValues || 0) + two.length;
-    for (const vx of [...U, ...CYCLIC, ...two])
+    const sparse = sparseSet([...U].reverse(), 80);
+    stats.sparseValues = (stats.sparseValues || 0) + sparse.length;
+    for (const vx of [...U, ...CYCLIC, ...two, ...sparse])
       for (const [opts, oname] of OPTS) {
         const n = checkRejected({ rep, stats, parser, parserName: name, vx, typeText, skel, program: text, opts, oname, printErrors: client.err.printErrors });
         if (n) shapes.add(skel + ":" + n + ":" + oname);
@@ -197,7 +199,7 @@ export async function run() {
   const emptyProg = new Prog([]);
   for (const { parser, spec, src } of bf.items) {
     const U = universeFor(emptyProg, spec, { mutantCap: 100 });
-    for (const vx of [...U, ...CYCLIC]) for (const [opts, oname] of OPTS) checkRejected({ rep, stats, parser, parserName: parser.name, vx, typeText: src, skel: "b:" + skeleton(spec), program: "// " + src, opts, oname, printErrors: bf.client.err.printErrors });
+    for (const vx of [...U, ...CYCLIC, ...sparseSet([...U].reverse(), 40)]) for (const [opts, oname] of OPTS) checkRejected({ rep, stats, parser, parserName: parser.name, vx, typeText: src, skel: "b:" + skeleton(spec), program: "// " + src, opts, oname, printErrors: bf.client.err.printErrors });
   }
   if (samples.length === 0) samples.push({ note: "sample slots not hit" });
   if (stats.unionErrors < 100) rep.machineryError("vacuous: fewer than 100 union errors seen");
